@@ -80,3 +80,14 @@ def clone(op, t, memory_format=torch.preserve_format):
     scale = op(t._scale, memory_format=memory_format)
     zeropoint = op(t._zeropoint, memory_format=memory_format)
     return QBitsTensor(t._qtype, t._axis, t._group_size, t.size(), t.stride(), data, scale, zeropoint)
+
+
+@register_qbitstensor_op([torch.ops.aten.div_, torch.ops.aten.mul_])
+def inplace_scalar_op(op, t, other):
+    is_scalar = isinstance(other, (int, float)) or (type(other) == torch.Tensor and other.ndim == 0)
+    if type(t) != QBitsTensor or not is_scalar:
+        raise NotImplementedError("In-place multiplication or division of a QBitsTensor is only supported for scalars")
+    # We just rescale: the scale is replaced, and not modified in-place because it may be shared
+    functional_op = torch.ops.aten.div if op == torch.ops.aten.div_ else torch.ops.aten.mul
+    t._scale = functional_op(t._scale, other)
+    return t
